@@ -25,8 +25,14 @@ KEY_FOFF_OOP = "regression/alter_frameoffset/decrease/out-of-place-encoding/copi
 KEY_STALESIZE = "regression/alter_raw/type-widened/same-handle-getdata/stale-sample-size/heap-overflow"
 KEY_LZMASEEK = "regression/alter_frameoffset/lzma/temporary-file-seek-takes-decoder-branch/GD_E_IO"
 KEY_FOFF0 = "regression/restructure+reopen/included-fragment-with-frameoffset-0-under-parent-with-nonzero-offset/directive-not-written"
+KEY_BIGFRAME = "alter_raw/recode/frame-larger-than-copy-buffer/data-file-emptied"
 KEY_SAMEHANDLE = "regression/alter_encoding/from-lzma-or-bzip2/same-handle-read/EBADF"
 GD_REN_DATA = 1
+
+
+def struct_f64(v):
+    import struct
+    return struct.unpack("<Q", struct.pack("<d", v))[0]
 
 
 def cls(enc):
@@ -182,20 +188,29 @@ def main():
                 new_case("alter_raw-type", t, enc, sex, off_, spf_, comps, ["alter_raw a %d 0 1" % t2],
                              {"t": t2, "off": off_, "comps": want},
                              "retype %d %d %s %s %s" % (t, t2, cls(enc), sex, gdlib.hexs(comps)), "%s %s %s->%s" % (enc, sex, NAMES[t], NAMES[t2]))
-        for (o, nn) in ((1, 2), (2, 1), (2, 3), (3, 2), (4, 1)):
-            t = rng.choice([1, 3, 8]); sex = "l"
-            nf = rng.choice([3, 9, 20])
-            part = rng.randint(0, o - 1)        # samples of a trailing partial frame
-            comps = values(rng, t, nf * o + part, enc == "text")
-            want = []
-            for q in range(nf):
-                for j in range(nn):
-                    want.append(comps[q * o + j * o // nn])
-            # the partial frame keeps floor(part * new / old) samples, each taken from the old partial frame
-            for j in range(part * nn // o):
-                want.append(comps[nf * o + j * o // nn])
-            new_case("alter_raw-spf", t, enc, sex, 0, o, comps, ["alter_raw a -1 %d 1" % nn],
+        # sample-rate change, up and down: every type and byte order (the first of each pair never little-endian), through
+        # gd_alter_raw or gd_alter_entry; the last pairs make one frame larger than the 64-byte copy buffer of hook H1
+        for (o, nn) in ((1, 2), (2, 1), (2, 3), (3, 2), (4, 1), (1, 3), (2, 5), (9, 2), (5, 7)):
+            for rep in range(2):
+                t = rng.choice([3, 4, 7, 8, 9, 10, 11] if rep == 0 else [1, 3, 8, 9, 11]); sx = gdlib.sexes_for(t)
+                if max(o, nn) >= 5:
+                    t = rng.choice([7, 9, 11])
+                sex = rng.choice([x for x in sx if x != "l"]) if rep == 0 else rng.choice(sx)
+                nf = rng.choice([3, 9, 20])
+                part = rng.randint(0, o - 1)        # samples of a trailing partial frame
+                comps = values(rng, t, nf * o + part, enc == "text")
+                nc = NCOMP[t]
+                smp = [comps[i * nc:(i + 1) * nc] for i in range(nf * o + part)]
+                want = []
+                for q in range(nf):
+                    for j in range(nn):
+                        want += smp[q * o + j * o // nn]
+                # the partial frame keeps floor(part * new / old) samples, each taken from the old partial frame
+                for j in range(part * nn // o):
+                    want += smp[nf * o + j * o // nn]
+                new_case("alter_raw-spf", t, enc, sex, 0, o, comps, [rng.choice(["alter_raw a -1 %d 1", "alter_entry a -1 %d 1"]) % nn],
                          {"t": t, "off": 0, "comps": want}, None, "%s spf %d->%d" % (enc, o, nn))
+                cases[-1]["bigframe"] = TSIZE[t] * max(o, nn) > 64
     for c in cases:
         # the frame offset used for the 'after' read of type changes
         pass
@@ -266,6 +281,9 @@ def main():
                 k2 = KEY_FOFF_OOP
             if c["kind"] == "alter_frameoffset" and enc == "lzma" and not okop and opres.split()[1:] == ["-5", "0"]:
                 k2 = KEY_LZMASEEK
+            if c.get("bigframe") and okop and a1 and a1[0] == 0 and a2 and a2[0] == 0 and (enc == "sie" or (a1[1] == 0 and a2[1] == 0)):
+                # nothing was copied: the field is empty afterwards (an empty SIE file is an I/O error to its reader)
+                k2 = KEY_BIGFRAME
             if c["kind"] == "alter_encoding" and enc in ("lzma", "bzip2") and okop and (a1 is None or a1[1] == -5) and a2 and a2[2] == c["want"]:
                 k2 = KEY_SAMEHANDLE
             spec_bad.setdefault(k2, []).append((c, why))
@@ -306,14 +324,18 @@ def main():
         open(os.path.join(d, "format"), "w").write(
             hdr(0) + "a RAW %s %d\nb RAW UINT8 1\nk CONST INT32 2\nca CARRAY FLOAT64 1.5 2.5 3.5 4.5\n"
             "l LINCOM a 2 1\np PHASE a 1\nmu MULTIPLY b a\nmab MPLEX a b 1\nmba MPLEX b a 1\nwab WINDOW a b GE 1\n"
-            "wba WINDOW b a GT 0\nin INDIR b ca\nlk LINCOM a k 0\n/INCLUDE sub1.format\n" % (NAMES[t], spf))
-        open(os.path.join(d, "sub1.format"), "w").write(hdr(1) + "c RAW UINT8 1\n/INCLUDE sub2.format\n")
-        open(os.path.join(d, "sub2.format"), "w").write(hdr(2) + "e RAW INT32 1\npe PHASE e 1\n")
+            "wba WINDOW b a GT 0\nin INDIR b ca\nlk LINCOM a k 0\npc0 PHASE c 0\nle0 LINCOM e 1 0 c 1 0\n/INCLUDE sub1.format\n" % (NAMES[t], spf))
+        # every fragment also holds fields that refer to RAW fields (and the CONST) of the OTHER fragments: a rename
+        # must rewrite the format file of every fragment that holds a referrer
+        open(os.path.join(d, "sub1.format"), "w").write(hdr(1) + "c RAW UINT8 1\npa1 PHASE a 0\nmbe1 MULTIPLY b e\nlk1 LINCOM e k 0\n/INCLUDE sub2.format\n")
+        open(os.path.join(d, "sub2.format"), "w").write(hdr(2) + "e RAW INT32 1\npe PHASE e 1\npa2 PHASE a 1\nlc2 LINCOM c 2 1 b 1 0\n")
         names = {"a": "a", "b": "b", "c": "c", "e": "e", "k": "k", "ca": "ca"}     # original -> current name
         frag = {"a": 0, "b": 0, "c": 1, "e": 2}
         ops = []
-        for oi in range(rng.randint(1, 4)):
-            k = rng.choice(["move", "rename", "rename", "enc", "end", "off", "enc_all", "end_all", "off_all"])
+        # a third of the scenarios are one rename or move and nothing else (no later operation rewrites the metadata)
+        single = rng.random() < 0.34
+        for oi in range(1 if single else rng.randint(1, 4)):
+            k = rng.choice(["move", "rename", "rename", "enc", "end", "off", "enc_all", "end_all", "off_all"] if not single else ["rename", "rename", "move"])
             if k == "move":
                 x = rng.choice(["a", "b", "c", "e"])
                 g2 = rng.choice([g for g in (0, 1, 2) if g != frag[x]])
@@ -328,7 +350,7 @@ def main():
                 ops.append("alter_endianness %s 0 %d 1" % (rng.choice(["big", "little"]), -1 if k == "end_all" else rng.choice([0, 1, 2])))
             else:
                 ops.append("alter_frameoffset %d %d 1" % (rng.choice([0, 1, 3]), -1 if k == "off_all" else rng.choice([0, 1, 2])))
-        derived = ["l", "p", "mu", "mab", "mba", "wab", "wba", "in", "lk", "pe"]
+        derived = ["l", "p", "mu", "mab", "mba", "wab", "wba", "in", "lk", "pe", "pc0", "le0", "pa1", "mbe1", "lk1", "pa2", "lc2"]
 
         def reads(nm):
             out = ["get %s %d %d 0 %d" % (nm["a"], t, F0, n + 2), "get %s 1 %d 0 %d" % (nm["b"], F0, nfr + 2),
@@ -394,6 +416,36 @@ def main():
     if len(r_) >= 3 and (r_[1] != "alter_endianness_raw 0 0" or r_[2] != "alter_endianness_raw 0 0"):
         chk.violation(KEY_ENDARG, "gd_alter_endianness with byte_sex 0 -> '%s', with GD_BIG_ENDIAN|GD_LITTLE_ENDIAN -> '%s'; gd_alter_endianness(3) documents both as valid" % (r_[1], r_[2]),
                       {"kind": "impl-vs-spec", "script": ["alter_endianness_raw 0 0 0", "alter_endianness_raw 12 0 0"], "got": r_})
+    # recorded witness of the open finding: one frame (5 x 16 bytes) larger than the 64-byte copy buffer of hook H1
+    dd_ = os.path.join(root, "bigframe"); os.mkdir(dd_)
+    open(os.path.join(dd_, "format"), "w").write("/ENCODING gzip\n/ENDIAN big arm\na RAW COMPLEX128 2\n")
+    bf_ = [struct_f64(float(i)) for i in range(82)]
+    rc, out = vlib.sh([exe], inp=("open %s rw\nput a 11 0 0 41 %s\nclose\nopen %s rw\nalter_raw a -1 5 1\nclose\nopen %s ro\nget a 11 0 0 200\nclose\n" % (
+        dd_, gdlib.hexs(bf_), dd_, dd_)).encode(), timeout=60)
+    r_ = out.strip().split("\n")
+    chk.cov["evaluations"] += 1
+    g_ = gdlib.parse_get(r_[7]) if len(r_) > 7 else None
+    if len(r_) > 7 and r_[4] == "alter_raw 0 0" and (g_ is None or g_[0] != 102):
+        chk.violation(KEY_BIGFRAME, "gzip, big-endian arm, a RAW COMPLEX128 2 holding 41 samples; gd_alter_raw(a, GD_NULL, 5, recode) -> 0; the field then reads '%s' "
+                      "(expected 102 samples): with 64-byte copy buffers one new frame (80 bytes) does not fit and nothing is copied" % r_[7][:60],
+                      {"kind": "impl-vs-spec", "script": ["put a 41 samples", "alter_raw a -1 5 1", "get a"], "got": r_})
+    if chk.thorough:
+        # the same on the real buffer size (9,000,000 bytes): one frame of 9,000,001 UINT8 samples, retyped to UINT16
+        try:
+            impl_r = vlib.build_impl()
+            exe_r = vlib.build_harness(impl_r, os.path.join(vlib.VERIF, "harness/C04/gdrun.c"))
+            dd_ = os.path.join(root, "bigframe-real"); os.mkdir(dd_)
+            open(os.path.join(dd_, "format"), "w").write("/ENCODING none\na RAW UINT8 9000001\n")
+            open(os.path.join(dd_, "a"), "wb").write(bytes(i % 251 for i in range(9000001)))
+            rc, out = vlib.sh([exe_r], inp=("open %s rw\nalter_raw a 3 0 1\nclose\n" % dd_).encode(), timeout=600)
+            chk.cov["evaluations"] += 1
+            sz_ = os.path.getsize(os.path.join(dd_, "a")) if os.path.exists(os.path.join(dd_, "a")) else -1
+            if "alter_raw 0 0" in out and sz_ != 18000002:
+                chk.violation(KEY_BIGFRAME, "a RAW UINT8 9000001 holding one frame; gd_alter_raw(a, GD_UINT16, 0, recode) -> 0 on the unmodified buffer size; "
+                              "the data file then has %d bytes (expected 18000002)" % sz_, {"kind": "impl-vs-spec", "script": ["alter_raw a 3 0 1"], "size": sz_})
+            os.unlink(os.path.join(dd_, "a"))
+        except vlib.BuildError as e:
+            chk.notes.append("un-hooked build failed: " + str(e)[:200])
     if chk.thorough:
         try:
             impl_a = vlib.build_impl("asan", gdlib.HOOKS + " -fsanitize-recover=all")
